@@ -202,6 +202,8 @@ class LoopingCall:
         self.starttime = self.clock.seconds()
         self.interval = interval
         self._runAtStart = now
+        # Skips are counted from this start, not from a call of an earlier run.
+        self._realLastTime = None
         if now:
             self()
         else:
